@@ -30,19 +30,47 @@ theorem prim_life (a b : State) (p : Prim a b) : Life a b := by
   case cleanup => exact .closed rfl rfl rfl
   case startBegin g1 g2 => exact .startBegin g1 g2 rfl rfl rfl
   case startToSocket g => exact .toSocket g rfl rfl rfl
-  case startFail e g1 g2 _ _ => exact .startFail g1 g2 e rfl rfl rfl
-  case sockOpened g1 g2 _ _ => exact .sockOpened g1 g2 rfl rfl rfl
+  case startFail e g1 g2 _ _ _ => exact .startFail g1 g2 e rfl rfl rfl
+  case startOk g =>
+    have hst : (aStartFutCb (aStartAttach a)).st = a.st := by
+      simp only [aStartFutCb]; split <;> simp [aStartAttach]
+    have hfin : (aStartFutCb (aStartAttach a)).finish = a.finish := by
+      simp only [aStartFutCb]; split <;> simp [aStartAttach]
+    by_cases hc : a.st = .closed
+    · have h1 : (aStartFutCb (aStartAttach a)).st = .closed := hst.trans hc
+      refine .startFail hc (Or.inr g) (wrap (cleanup (aStartFutCb (aStartAttach a))) .interrupted) ?_ ?_ ?_
+      · simp [startOkPath, h1, aStartDone, cleanup, hc]
+      · simp [startOkPath, h1, aStartDone]
+      · simp [startOkPath, h1, aStartDone, cleanup, hfin]
+    · have h1 : (aStartFutCb (aStartAttach a)).st ≠ .closed := by rw [hst]; exact hc
+      refine .sockOpened g hc ?_ ?_ ?_
+      · simp [startOkPath, h1, aSockOpened]
+      · simp [startOkPath, h1, aSockOpened]
+      · simp [startOkPath, h1, aSockOpened, hfin]
   case finishBegin g1 g2 => exact .finishBegin g1 g2 rfl rfl rfl
   case finToReady g _ => exact .toReady g rfl rfl rfl
   case finFail e g1 g2 _ _ _ _ => exact .finFail g1 g2 e rfl rfl rfl
   case hsEnter g1 g2 _ => exact .hsEnter g1 g2 rfl rfl rfl
   case helloStart g1 g2 _ _ => exact .helloStart g1 g2 rfl rfl rfl
-  case connected g1 g2 _ _ _ => exact .connected g1 g2 rfl rfl rfl
+  case helloOk g _ =>
+    have hst : (aFinFutCb (aKeepalive a)).st = a.st := by
+      simp only [aFinFutCb]; split <;> simp [aKeepalive]
+    have hs : (aFinFutCb (aKeepalive a)).start = a.start := by
+      simp only [aFinFutCb]; split <;> simp [aKeepalive]
+    by_cases hc : a.st = .closed
+    · have h1 : (aFinFutCb (aKeepalive a)).st = .closed := hst.trans hc
+      refine .finFail hc (Or.inr (Or.inr g)) (wrap (cleanup (aFinFutCb (aKeepalive a))) .interrupted) ?_ ?_ ?_
+      · simp [helloOkPath, h1, aFinDone, cleanup, hc]
+      · simp [helloOkPath, h1, aFinDone, cleanup, hs]
+      · simp [helloOkPath, h1, aFinDone]
+    · have h1 : (aFinFutCb (aKeepalive a)).st ≠ .closed := by rw [hst]; exact hc
+      refine .connected g hc ?_ ?_ ?_
+      · simp [helloOkPath, h1, aConnected]
+      · simp [helloOkPath, h1, aConnected, hs]
+      · simp [helloOkPath, h1, aConnected]
   case collect r _ => refine .same ?_ ?_ ?_ <;> (simp only [collect]; (repeat' split) <;> rfl)
-  case startFutCb => refine .same ?_ ?_ ?_ <;> (simp only [aStartFutCb]; split <;> rfl)
   case finFutQuiet => refine .same ?_ ?_ ?_ <;> (simp only [aFinFutQuiet]; split <;> rfl)
   case trCancelled => refine .same ?_ ?_ ?_ <;> (simp only [aTrCancelled]; split <;> rfl)
-  case finFutCb => refine .same ?_ ?_ ?_ <;> (simp only [aFinFutCb]; split <;> rfl)
   all_goals exact .same rfl rfl rfl
 
 end Esp.Conn
